@@ -1,6 +1,9 @@
 // ---- /verif/kani/setup.rs: appended to src/setup.rs in the Kani scratch copy ----
 #[cfg(kani)]
 mod verif_kani {
+    // the crate is no_std: names needed by Kani's generated concrete-playback tests
+    extern crate std as verif_std;
+    #[allow(unused_imports)] use verif_std::{vec, vec::Vec};
     use super::*;
     use crate::kdf::{HkdfSha256, HkdfSha384, HkdfSha512};
     pub(crate) fn noop_barrier<T: ?Sized>(_val: &T) {}
